@@ -293,8 +293,8 @@ fn main() {
     let so = shim::build(&tmp);
     let ctx = Ctx { exe, so, tmp: tmp.clone() };
     let k: u64 = run.pick(8, 64);
-    // the corpus worlds are many and mostly small: half the seeds in the quick tier
-    let k_corpus: u64 = run.pick(4, 64);
+    // the corpus worlds are many and mostly small: fewer seeds than the composed worlds
+    let k_corpus: u64 = run.pick(4, 16);
 
     // ---- the seeds must really own the hash order ---------------------------------------
     let probe = |seed: u64| split_out(&run_child(&ctx, seed, &["probe".to_string()])).0;
